@@ -85,6 +85,15 @@ theorem intro_reaches_response_history (c : Cfg) :
 example : ((prehistoryResp ⟨.portRestricted, .portRestricted, .same, false⟩).verifiedAt 0 2).map (·.lan) =
     some (some ⟨ipv4 192 168 1 3, 8090⟩) := by decide +kernel
 
+/-- the remaining ways the introducer can have learned the introduced peer — repeated requests (the later ones sent after
+    the peer knew its WAN address, so source_wan_address ≠ source_lan_address), request then response, response then
+    request: in each the introduction reaches P, hands out P's real addresses, R's contact attempt succeeds, both are
+    verified at each other, and same-box pairs stay on the LAN -/
+theorem intro_reaches_other_histories (c : Cfg) :
+    allOkW c (prehistoryRepeat c) = true ∧ allOkW c (prehistoryReqResp c) = true ∧ allOkW c (prehistoryRespReq c) = true :=
+  ⟨of_all tableE1 c, of_all tableE2 c, of_all tableF c⟩
+example : ((prehistoryRepeat ⟨.portRestricted, .portRestricted, .diff, false⟩).trace.getLast?.isSome) = true := by decide +kernel
+
 /-- on_introduction_response records the responder's LAN address as well -/
 theorem response_teaches_lan (p : IntroRespView) :
     Gen.respLearnsLan p = true ∧ Gen.respLearnedLan p = p.source_lan_address := by
